@@ -8,6 +8,7 @@ import (
 	"testing"
 
 	utils "github.com/alibaba/RedisShake/redis-shake/common"
+	conf "github.com/alibaba/RedisShake/redis-shake/configure"
 	"github.com/alibaba/RedisShake/redis-shake/dbSync/latencymonitor"
 	"github.com/alibaba/RedisShake/redis-shake/filter"
 	gocluster "github.com/vinllen/redis-go-cluster"
@@ -112,7 +113,7 @@ func c15CheckRange(t fataler, l, r int) bool {
 		return violation(t, "C15", "checkpoint-key-range", "ChoseSlotInRange(%q,%d,%d)=%q hashes to slot %d", utils.CheckpointKey, l, r, key, s)
 	}
 	if !strings.HasPrefix(key, utils.CheckpointKey) || !filter.FilterKey(key) {
-		return violation(t, "C15", "checkpoint-key-filter", "checkpoint key %q for [%d,%d] is not excluded by the key filter", key, l, r)
+		return violation(t, "C15", "checkpoint-key-filter", "checkpoint key %q for [%d,%d] is not excluded by the key filter (key whitelist %v, blacklist %v)", key, l, r, conf.Options.FilterKeyWhitelist, conf.Options.FilterKeyBlacklist)
 	}
 	lk := latencymonitor.VerifFindKeyInRange(l, r)
 	if s := ref.Slot([]byte(lk)); s < l || s > r {
@@ -137,10 +138,22 @@ func c15Range(t *rapid.T) {
 		l = rapid.IntRange(0, 16383).Draw(t, "l")
 		r = rapid.IntRange(l, 16383).Draw(t, "r")
 	}
+	// "every such key is excluded by the key filter": whatever key black/white list is configured
+	// (lists that would let the key pass or that do not mention it at all)
+	f := filterConf{}
+	pre := rapid.SliceOfNDistinct(rapid.SampledFrom([]string{"r", "redis", "redis-shake-", "redis-shake-checkpoint", "redis-shake-checkpoint-", "a", "user:", "x"}), 1, 3, func(s string) string { return s })
+	switch rapid.IntRange(0, 2).Draw(t, "keyfilter") {
+	case 0:
+		f.keyWhite = pre.Draw(t, "keyWhite")
+	case 1:
+		f.keyBlack = pre.Draw(t, "keyBlack")
+	}
+	f.apply()
+	defer resetFilters()
 	if c15CheckRange(t, l, r) {
 		return
 	}
-	stats.C.Case(r-l < 4, stats.HashS(fmt.Sprintf("range %d %d", l, r)), "slot-range")
+	stats.C.Case(r-l < 4, stats.HashS(fmt.Sprintf("range %d %d %v %v", l, r, f.keyWhite, f.keyBlack)), "slot-range", fmt.Sprintf("key-filter-configured=%v", f.hasKeyFilter()))
 	if l == r {
 		stats.C.Sample(fmt.Sprintf("slot range [%d,%d] -> checkpoint key %q", l, r, utils.ChoseSlotInRange(utils.CheckpointKey, l, r)))
 	}
